@@ -184,6 +184,16 @@ func NewPipeFromBufferPool(pool *sync.Pool) *Pipe {
 	return p
 }
 
+// Len returns the number of bytes of the unread portion of the pipe.
+func (p *Pipe) Len() int {
+	p.mu.Lock()
+	defer p.mu.Unlock()
+	if p.b == nil {
+		return 0
+	}
+	return p.b.Len()
+}
+
 // Release() releases underlying fixed buffer
 func (p *Pipe) Release(pool *sync.Pool) {
 	p.mu.Lock()
